@@ -251,12 +251,30 @@ type convUse struct {
 }
 
 func errFailTests(errv ssa.Value) (func(ssax.Cond) bool, func(ssa.Value) (bool, bool)) {
+	// the tested value is the error itself, or a variable that holds either the error or nil (`var err error; if ... {
+	// v, err = conv() }; if err != nil`): non-nil there still means that the conversion failed
+	isErr := func(x ssa.Value) bool {
+		if x == errv {
+			return true
+		}
+		has := false
+		for _, l := range ssax.Leaves(x) {
+			switch {
+			case l == errv:
+				has = true
+			case ssax.IsNilConst(l):
+			default:
+				return false
+			}
+		}
+		return has
+	}
 	return func(cd ssax.Cond) bool {
 			x, nilIfTrue, isNT := nilTest(cd.Val)
-			return isNT && x == errv && cd.Truth != nilIfTrue
+			return isNT && isErr(x) && cd.Truth != nilIfTrue
 		}, func(cond ssa.Value) (bool, bool) {
 			x, nilIfTrue, isNT := nilTest(cond)
-			if !isNT || x != errv {
+			if !isNT || !isErr(x) {
 				return false, false
 			}
 			return !nilIfTrue, true
@@ -501,6 +519,32 @@ func (c *Ctx) ruleR08b(rule string) {
 						}
 						if cvt, ok := a.(*ssa.Convert); ok && cvt.X == v0 {
 							dep = true
+						}
+					}
+					// ... on every path: a value merged from the conversion and from something else (a hand-written
+					// fast path beside strconv) is decoded by the other source on some inputs
+					av := ssax.Strip(a)
+					if cvt, ok := av.(*ssa.Convert); ok {
+						av = ssax.Strip(cvt.X)
+					}
+					if _, isPhi := av.(*ssa.Phi); isPhi {
+						some, all := false, true
+						for _, l := range ssax.Leaves(av) {
+							fromConv := false
+							for _, v0 := range u.vals {
+								if l == ssa.Value(v0) || dependsOn(l, v0, func(k *ssa.Call) bool { return false }) {
+									fromConv = true
+								}
+							}
+							if fromConv {
+								some = true
+							} else {
+								all = false
+							}
+						}
+						if some && !all {
+							okVal = false
+							c.R.Violation(rule, name+" node value bypasses the conversion", name, c.P.InstrPos(r), "the value of the node built here comes from "+u.what+" on some paths and from another computation on others: on those paths the literal is decoded differently from Go's conversion")
 						}
 					}
 				}
